@@ -51,13 +51,15 @@ def build(params):
             e.graphs["g.gfa"] = lambda low: g
             e.files["in.gaf"] = stubs.MFile("text", F.build_lines([">s1"], [(500, 1, 2)]), [c0, c1])
             res = {}
-            for outind in (None, "custom.idx"):
+            for outind, bgz in ((None, False), ("custom.idx", False), (None, True), ("custom.idx", True)):
                 e.pickles.clear()
                 e.writer_cookies["o.gaf"] = [w0, w1]
-                S.run_sort("g.gfa", "in.gaf", outgaf="o.gaf", outind=outind, bgzip=False)
+                S.run_sort("g.gfa", "in.gaf", outgaf="o.gaf", outind=outind, bgzip=bgz)
                 want = outind or "o.gaf.gsi"
                 if list(e.pickles.keys()) != [want]:
-                    return "index written to %r, expected %r" % (list(e.pickles.keys()), want)
+                    return "bgzip=%s outind=%r: index written to %r, expected %r" % (bgz, outind, list(e.pickles.keys()), want)
+                if (e.files["o.gaf"].kind == "bgzf") != bgz:
+                    return "bgzip=%s but the output was %s" % (bgz, e.files["o.gaf"].kind)
                 d = e.pickles[want]
                 if set(d.keys()) != {"chr1"} or not (d["chr1"][0] == w0 and d["chr1"][1] == w0):
                     return "index content wrong"
@@ -100,9 +102,11 @@ def replay(params, model, wd):
         if v:
             return {"reproduced": True, "key": "C10:index:" + v[0], "what": v[1]}
         import os
-        lines, outl, offs, idx, err = F.real_sort(wd, [">s1"], tags, [(500, 1, 2)], outind=os.path.join(wd, "custom.idx"))
-        if err or idx is None:
-            return {"reproduced": True, "key": "C10:outind", "what": "custom index path: %s" % (err or "not written")}
+        for bgz in (False, True):
+            lines, outl, offs, idx, err = F.real_sort(wd, [">s1"], tags, [(500, 1, 2)], outind=os.path.join(wd, "custom%d.idx" % bgz), gz_out=bgz)
+            if err or idx is None:
+                return {"reproduced": True, "key": "C10:outind:%s" % ("bgzip" if bgz else "plain"),
+                        "what": "--outind with bgzip=%s: %s" % (bgz, err or "no index at the requested path")}
         return {"reproduced": False, "detail": "run_sort index paths fine"}
     used, tags, nums = F.decode_sort(params, model)
     paths = params["paths"]
